@@ -49,6 +49,8 @@ fn same_zone(a: &TimeZone, b: &TimeZone) -> bool {
 pub struct Oracle<'a> {
     run: &'a RunState,
     events: &'a [Ev],
+    /// (event seq, site, op) of every injected I/O error.
+    io_fired: &'a [(u32, &'static str, u32)],
     exp: HashMap<(ContentId, usize), Exp>,
     bundled: HashMap<String, Exp>,
     pub stats: OracleStats,
@@ -66,13 +68,19 @@ pub struct OracleStats {
     pub reuse_checked: u64,
     pub hostile_checked: u64,
     pub settle_gets: u64,
+    pub errs_justified_by_io_fault: u64,
 }
 
 impl<'a> Oracle<'a> {
-    pub fn new(run: &'a RunState, events: &'a [Ev]) -> Oracle<'a> {
+    pub fn new(
+        run: &'a RunState,
+        events: &'a [Ev],
+        io_fired: &'a [(u32, &'static str, u32)],
+    ) -> Oracle<'a> {
         Oracle {
             run,
             events,
+            io_fired,
             exp: HashMap::new(),
             bundled: HashMap::new(),
             stats: OracleStats::default(),
@@ -141,6 +149,23 @@ impl<'a> Oracle<'a> {
         };
         self.bundled.insert(q.to_string(), e.clone());
         e
+    }
+
+    /// Did an injected I/O error hit operation `op` (at any site)?
+    fn io_fault_in(&self, op: u32) -> bool {
+        self.io_fired.iter().any(|f| f.2 == op)
+    }
+
+    /// Did an injected I/O error hit the name listing (directory walk /
+    /// index read) performed by operation `op`?
+    fn io_fault_in_listing(&self, op: u32) -> bool {
+        self.io_fired.iter().any(|f| {
+            f.2 == op
+                && matches!(
+                    f.1,
+                    "zi.walk.read_dir" | "zi.walk.open" | "cc.names.open" | "cc.read_at"
+                )
+        })
     }
 
     fn window(&self, p: &OpRec, l: &OpRec) -> (u32, u32) {
@@ -485,6 +510,20 @@ impl<'a> Oracle<'a> {
                         Exp::Zone(_) => {}
                     }
                 }
+                // (a') one of this lookup's own file system calls failed with
+                // an injected error: it may fail, never return wrong data.
+                if self.io_fault_in(l.id) {
+                    self.stats.errs_justified_by_io_fault += 1;
+                    return None;
+                }
+                // (b') zoneinfo: an injected error made the directory walk of
+                // an operation that is still within its TTL skip entries.
+                if backend == Backend::ZoneInfo
+                    && wit.iter().any(|p| self.io_fault_in_listing(p.id))
+                {
+                    self.stats.errs_justified_by_io_fault += 1;
+                    return None;
+                }
                 // (b) zoneinfo only: the name index was (re)built by an
                 // earlier operation that is still within its TTL, at a
                 // moment the name was not listable.
@@ -541,6 +580,7 @@ impl<'a> Oracle<'a> {
             let mut may_fail = false;
             let mut matched = false;
             for p in wit.iter() {
+                may_fail |= self.io_fault_in_listing(p.id);
                 let (lo, hi) = self.window(p, l);
                 let (images, any_absent) = self.cc_images(lo, hi);
                 may_fail |= any_absent;
@@ -605,6 +645,11 @@ impl<'a> Oracle<'a> {
         // A refresh that finds nothing keeps the previous list (documented
         // in `refresh`). If that may have happened in a witness, only the
         // checks above apply.
+        if wit.iter().any(|p| self.io_fault_in_listing(p.id)) {
+            // An injected error made some walk skip entries.
+            self.stats.availables_relaxed += 1;
+            return out;
+        }
         for p in wit.iter() {
             let (lo, hi) = self.window(p, l);
             let snaps = self.snaps(lo, hi);
@@ -654,6 +699,10 @@ impl<'a> Oracle<'a> {
     fn check_open(&mut self, l: &'a OpRec) -> Option<Violation> {
         let Res::OpenErr(ref e) = l.res else { return None };
         self.stats.opens_failed += 1;
+        if self.io_fault_in(l.id) {
+            self.stats.errs_justified_by_io_fault += 1;
+            return None;
+        }
         let backend = self.case().backend;
         let (lo, hi) = self.window(l, l);
         let snaps = self.snaps(lo, hi);
